@@ -589,6 +589,123 @@ def fidelity(run, drv, im, rng, ncases):
                                 mem_error=float(np.linalg.norm(mm["mem"] - np.array(m)))))
 
 
+def widths_of(deg):
+    """bin widths of a direction grid in storage order: half the wrapped distance to both neighbours on the circle"""
+    order = np.argsort(deg % 360)
+    sd = (deg % 360)[order]
+    fwd = (np.roll(sd, -1) - sd) % 360
+    bwd = (sd - np.roll(sd, 1)) % 360
+    w = np.empty(len(deg))
+    w[order] = 0.5 * (fwd + bwd)
+    return w
+
+
+def moments_on(D_deg, deg, w):
+    rad = np.radians(deg)
+    return np.array([np.sum(D_deg * np.cos(rad) * w), np.sum(D_deg * np.sin(rad) * w),
+                     np.sum(D_deg * np.cos(2 * rad) * w), np.sum(D_deg * np.sin(2 * rad) * w)])
+
+
+def fidelity_grids(run, im, rng, ncases):
+    """Moment fidelity and solver agreement on direction grids other than 0, Δ, 2Δ, …: uniform grids stored from another
+    start (so that 360 is passed in the middle of the array), uniform grids with an offset, non-uniform grids (fine bins in
+    one sector); and batches whose points have different moments (each point against its own moments)."""
+    for case in range(ncases):
+        with common.guard(run, f"fidelity-grid case {case}"), warnings.catch_warnings():
+            warnings.simplefilter("ignore")
+            kind = ["rolled", "offset", "nonuniform", "batch"][case % 4]
+            n = rng.choice([24, 36, 72])
+            binw = 360.0 / n
+            std = np.linspace(0, 360, n, endpoint=False)
+            if kind == "rolled":
+                k = rng.randrange(1, n)
+                deg = np.roll(std, -k)                      # e.g. 180, …, 350, 0, …, 170
+            elif kind == "offset":
+                deg = (std + rng.choice([binw / 2, 7.5, 1.0])) % 360
+                deg = np.roll(deg, -int(np.argmin(deg)))   # ascending, not starting at 0
+            elif kind == "nonuniform":
+                fine = rng.choice([5.0, 6.0])
+                start = rng.choice([0.0, 90.0, 200.0])
+                deg = np.concatenate([start + np.arange(0, 90, fine), start + 90 + np.arange(0, 270, 3 * fine)]) % 360
+                deg = np.sort(deg)
+                n = len(deg)
+            else:
+                deg = std
+            w = widths_of(deg)
+            run.count("grid_" + kind)
+            coarse = float(np.max(w))
+            if kind == "batch":
+                # four points in different quadrants, two of them mirror images of each other
+                ms = []
+                while len(ms) < 3:
+                    m, _ = resolved(rng, n)
+                    ms.append(m)
+                ms.append(mirror_moments(ms[0]))
+            else:
+                while True:
+                    m, _ = vm_mixture(rng, min_sigma_deg=max(1.5 * coarse, 4.0), max_sigma_deg=90.0)
+                    if circular_spread_deg(m) >= 1.5 * coarse:
+                        break
+                ms = [m]
+            cols = [np.array([mm[i] for mm in ms], dtype=float) for i in range(4)]
+            if kind == "batch":
+                # leading (point) dimension x one frequency: each point must be estimated from its own row of every moment
+                cols = [c.reshape(len(ms), 1) for c in cols]
+                run.count("batch_points_x_frequency")
+            info = dict(grid=kind, directions=deg.tolist(), moments=[list(map(float, mm)) for mm in ms])
+            out = {}
+            for variant in ("mem", "mem2/newton", "mem2/scipy"):
+                if variant == "mem" and kind == "nonuniform":
+                    out[variant] = None        # MEM normalises with a uniform increment: uniform grids only (C05's quantifier)
+                    continue
+                run.case("fidelity_grid", key=(case, variant))
+                if variant == "mem":
+                    D = im.estimate.estimate_directional_distribution(*cols, deg, method="mem")
+                else:
+                    D = im.estimate.estimate_directional_distribution(*cols, deg, method="mem2", solution_method=variant.split("/")[1])
+                D = np.asarray(D, dtype=float).reshape(len(ms), -1)
+                out[variant] = D
+                for i, mm in enumerate(ms):
+                    norm = float(np.sum(D[i] * w))
+                    if abs(norm - 1.0) > 1e-6:
+                        run.violation("the reconstructed distribution does not integrate to one with the grid's own bin widths",
+                                      dict(info, variant=variant, point=i, integral=norm))
+                    got = moments_on(D[i], deg, w)
+                    if variant == "mem":
+                        if kind in ("rolled", "batch"):
+                            want, conv = mem_aliased_moments(mm, n)
+                            if conv and float(np.linalg.norm(got - want)) > 1e-7:
+                                run.violation("MEM does not reproduce the moments of a resolved distribution to within its discretisation error",
+                                              dict(info, point=i, recomputed=got.tolist(), expected=want.tolist()))
+                    else:
+                        err = float(np.linalg.norm(got - np.array(mm)))
+                        if err >= ATOL:
+                            run.violation("MEM2 does not reproduce a1,b1,a2,b2 within the solver tolerance for a resolved distribution",
+                                          dict(info, variant=variant, point=i, error=err, recomputed=got.tolist()))
+            for i in range(len(ms)):
+                e_ns = float(np.linalg.norm(moments_on(out["mem2/newton"][i], deg, w) - moments_on(out["mem2/scipy"][i], deg, w)))
+                if e_ns >= 2 * ATOL:
+                    run.violation("the Newton and scipy solutions disagree by more than the tolerance", dict(info, point=i, difference=e_ns))
+            if kind == "rolled":
+                # the same directions in another storage order: the same distribution, re-ordered
+                for variant in ("mem", "mem2/newton", "mem2/approximate"):
+                    run.case("grid_storage_order", key=(case, variant))
+                    if variant == "mem":
+                        D0 = im.estimate.estimate_directional_distribution(*cols, std, method="mem")[0]
+                        D1 = out["mem"][0]
+                    else:
+                        sm = variant.split("/")[1]
+                        D0 = im.estimate.estimate_directional_distribution(*cols, std, method="mem2", solution_method=sm)[0]
+                        D1 = out[variant][0] if variant in out else im.estimate.estimate_directional_distribution(*cols, deg, method="mem2", solution_method=sm)[0]
+                    if not close(D1, np.roll(D0, -k), 1e-6 if variant == "mem2/newton" else 1e-9):
+                        run.violation("the distribution depends on where the storage of the direction grid starts", dict(info, variant=variant, k=k))
+            if kind == "batch":
+                idx = (-np.arange(n)) % n
+                for variant in ("mem", "mem2/newton"):
+                    if not close(out[variant][3][idx], out[variant][0], 1e-6 if variant == "mem2/newton" else 1e-9):
+                        run.violation("mirrored moments in the same batch do not give the mirrored distribution", dict(info, variant=variant))
+
+
 def jacobian_fd(run, im, rng, ncases):
     for case in range(ncases):
         with common.guard(run, f"jacobian case {case}"), warnings.catch_warnings():
@@ -642,6 +759,7 @@ def main(prop, tier, seed):
         else:
             correspondence(run, drv, im, run.rng, 200 if thorough else 30)
             fidelity(run, drv, im, run.rng, 240 if thorough else 24)
+            fidelity_grids(run, im, run.rng, 120 if thorough else 16)
             jacobian_fd(run, im, run.rng, 400 if thorough else 60)
             rule = RULE_C06
     finally:
